@@ -242,13 +242,80 @@ ConvertGate(s, l, h) ==
 DoIntoBench(s, Helper(_)) ==
   FoldLeft(LAMBDA acc, l : ConvertGate(acc, l, Helper(l)), s, SetToSeq(DOMAIN s.g))
 
+
+(***************************  replace_subcircuit  *************************)
+(* sub: abstract circuit; im / om: sequences of <<circuit label, subcircuit label>> pairs in
+   the iteration order of the two dictionaries.  The call is a sequence of smaller steps
+   (validation, renames, slice block, removal, insertion, users restoration, cycle check), each
+   of which can fail; RS(...) threads [ok, s] through them exactly in the code's order, so that
+   Pre = "every step passes" and Do = the final state.  The temporary block carries a fresh
+   uuid-based name in the code ("block_for_deleting..."); it only survives when it has no member
+   gate, and is ignored by the comparison (TempBlock). *)
+PairKeys(q) == [j \in DOMAIN q |-> q[j][1]]
+PairVals(q) == [j \in DOMAIN q |-> q[j][2]]
+RenameAll(acc, q) ==
+  FoldLeft(LAMBDA a, pr :
+     IF ~a.ok \/ pr[1] = pr[2] THEN a
+     ELSE IF PreRename(a.s, pr[1], pr[2]) THEN [ok |-> TRUE, s |-> DoRename(a.s, pr[1], pr[2])]
+     ELSE [a EXCEPT !.ok = FALSE], acc, q)
+TempBlockName == "block_for_deleting"
+IsTempBlock(n) == Len(n) >= 18 /\ SubSeq(n, 1, 18) = TempBlockName
+ReplaceSub(s0, sub, im, om) ==
+  LET keysI == PairKeys(im)  valsI == PairVals(im)
+      keysO == PairKeys(om)  valsO == PairVals(om)
+      valid ==
+        /\ SeqSet(keysI) \cap SeqSet(keysO) = {}
+        /\ NoDup(keysI) /\ NoDup(keysO)
+        /\ SeqSet(keysI) \cup SeqSet(keysO) \subseteq DOMAIN s0.g
+        /\ SeqSet(valsO) \subseteq DOMAIN sub.g
+        /\ \A j \in DOMAIN valsI : valsI[j] \in DOMAIN sub.g /\ sub.g[valsI[j]].t = "INPUT"
+        /\ SeqSet(sub.i) \subseteq SeqSet(valsI)
+        /\ WF1(sub) /\ WF5(sub)
+  IN IF ~valid THEN [ok |-> FALSE, s |-> s0]
+     ELSE
+     LET r1 == RenameAll(RenameAll([ok |-> TRUE, s |-> s0], im), om)
+     IN IF ~r1.ok THEN r1
+     ELSE
+     LET s1 == r1.s
+         I == SeqSet(valsI)  O == SeqSet(valsO)
+     IN IF ~(I \cup O \subseteq DOMAIN s1.g) \/ ~PreMakeSlice(s1, TempBlockName, valsI, valsO) THEN [ok |-> FALSE, s |-> s1]
+     ELSE
+     LET members == SliceGates(s1, valsI, valsO)
+         outsOK == \A j \in DOMAIN s1.o : s1.o[j] \in members => s1.o[j] \in O
+         noUsers == \A g \in members \ O : SeqSet(s1.u[g]) \subseteq members
+         kept == [l \in O |-> SelectSeq(s1.u[l], LAMBDA w : w \notin members)]
+     IN IF ~outsOK \/ ~noUsers THEN [ok |-> FALSE, s |-> s1]
+     ELSE
+     LET s2 == DoRemoveBlockU(s1, SetToSeq(members))
+         \* with no member gate the temporary block is never removed
+         s2b == IF members = {} THEN [s2 EXCEPT !.b = (TempBlockName :> [i |-> valsI, g |-> <<>>, o |-> valsO]) @@ s2.b] ELSE s2
+         r3 == FoldLeft(LAMBDA a, l :
+                  IF ~a.ok \/ l \in I THEN a
+                  ELSE IF PreAddGate(a.s, l, sub.g[l].t, sub.g[l].o)
+                       THEN [ok |-> TRUE, s |-> DoAddGate(a.s, l, sub.g[l].t, sub.g[l].o)]
+                       ELSE [a EXCEPT !.ok = FALSE],
+                [ok |-> TRUE, s |-> s2b], TopoSeq(sub))
+     IN IF ~r3.ok THEN r3
+     ELSE
+     LET s3 == r3.s
+         s4 == [s3 EXCEPT !.o = s1.o,
+                          !.u = [x \in DOMAIN s3.u |-> IF x \in O THEN s3.u[x] \o kept[x] ELSE s3.u[x]]]
+         \* the cycle check walks from the outputs only
+         acyclic == LET R == Reach(s4, SeqSet(s4.o))
+                        subnet == [s4 EXCEPT !.g = [x \in R |-> s4.g[x]]]
+                    IN Layering(subnet, {}) = R
+     IN [ok |-> (O \subseteq DOMAIN s3.g) /\ SeqSet(s1.o) \subseteq DOMAIN s3.g /\ acyclic, s |-> s4]
+PreReplaceSub(s, sub, im, om) == ReplaceSub(s, sub, im, om).ok
+DoReplaceSub(s, sub, im, om) == ReplaceSub(s, sub, im, om).s
+
 (***************************  comparison used by the judge  ***************)
 SameBag(a, b) == \A e \in SeqSet(a) \cup SeqSet(b) : Occ(a, e) = Occ(b, e)
 (* equality of states up to the order inside users lists and block member lists *)
 SameState(x, y) ==
   /\ x.g = y.g /\ x.i = y.i /\ x.o = y.o
   /\ DOMAIN x.u = DOMAIN y.u /\ \A l \in DOMAIN x.u : SameBag(x.u[l], y.u[l])
-  /\ DOMAIN x.b = DOMAIN y.b
-  /\ \A n \in DOMAIN x.b : /\ x.b[n].i = y.b[n].i /\ x.b[n].o = y.b[n].o
-                           /\ SameBag(x.b[n].g, y.b[n].g)
+  /\ {n \in DOMAIN x.b : ~IsTempBlock(n)} = {n \in DOMAIN y.b : ~IsTempBlock(n)}
+  /\ \A n \in {k \in DOMAIN x.b : ~IsTempBlock(k)} :
+        /\ x.b[n].i = y.b[n].i /\ x.b[n].o = y.b[n].o
+        /\ SameBag(x.b[n].g, y.b[n].g)
 =============================================================================
